@@ -83,7 +83,7 @@ def replay_chunk(args):
     with open(path, "w") as f:
         for i, h in items:
             f.write(json.dumps({"id": i, "hist": h}) + "\n")
-    rc, out = V.ckbv("c14", ["replay", "--in", path, "--nodes", nodes], timeout=2400)
+    rc, out = V.ckbv("c14", ["replay", "--in", path, "--nodes", nodes], timeout=3300)
     lines = V.parse_ndjson(out)
     summ = [x for x in lines if "summary" in x]
     if rc != 0 or not summ:
@@ -216,7 +216,7 @@ def run(tier):
             raise V.ToolError("oracle self-test failed: %s does not violate CacheTransparent" % b)
         rej[b] = r["violated"]
     c.set("selftest_broken_caches_rejected_by", rej)
-    n, par, nodes = (28, 4, "ABC") if tier == "quick" else (240, 4, "ABCD")
+    n, par, nodes = (28, 4, "ABC") if tier == "quick" else (120, 4, "ABCD")
     rnd = random.Random(V.seed())
     chosen = pick(hs, n, rnd)
     V.build_harness("c14")
